@@ -45,6 +45,11 @@ func concScenarios() []concScen {
 		out = append(out, concScen{"weight-update‖insert/" + ex, w, []string{"set 1 2", "set 2 1"}, [][]string{{"set 1 3"}, {"set 3 1"}}, "native"})
 		out = append(out, concScen{"weight-update‖setmax/" + ex, w, []string{"set 1 2", "set 2 1"}, [][]string{{"set 1 1"}, {"setmax 2"}}, "native"})
 	}
+	// the maximum is lowered while only reads are in flight: no write event will trigger maintenance later
+	for _, ex := range []string{"caller", "default"} {
+		out = append(out, concScen{"read‖setmax/" + ex, CacheCfg{MaxSize: 2, Executor: ex}, two, [][]string{{"get 1"}, {"setmax 1"}}, "native"})
+		out = append(out, concScen{"insert‖setmax/" + ex, CacheCfg{MaxSize: 3, Executor: ex}, two, [][]string{{"set 3"}, {"setmax 1"}}, "native"})
+	}
 	// S6 load install || eviction
 	out = append(out, concScen{"load‖insert-evict/caller", CacheCfg{MaxSize: 2, Executor: "caller"}, two, [][]string{{"load 3"}, {"set 4"}}, "native"})
 	return out
